@@ -65,7 +65,7 @@ def compare(dft, dfp):
 
 def one(sh, case, driver='generated'):
     ct = dict(case, center_extrema='trough')
-    cp = dict(case, center_extrema='peak', sig=-np.asarray(case['sig']))
+    cp = dict(case, center_extrema='peak', sig=-monitors.real(case['sig']))
     dft, et = pipeline.call(ct)
     dfp, ep = pipeline.call(cp)
     others = attach.take_violations()
